@@ -58,16 +58,16 @@ def convHandle (w : World) (op : String) (args : List Sexp) : Option Sexp :=
   match op, args with
   | "UN", [cfg, ty, o] => do
       let cfg ← cfgOfSexp cfg; let ty ← tyOfSexp ty; let o ← objOfSexp o
-      if !conf w ty o then some (.atom "unmodelled") else some (replyObj (un w cfg ty o))
+      if !conf w ty o then some (.atom "unmodelled") else some (replyObj (convUnstructure w cfg ty o))
   | "ST", [cfg, ty, o] => do
       let cfg ← cfgOfSexp cfg; let ty ← tyOfSexp ty; let o ← objOfSexp o
       if unmodelledST w cfg ty o then some (.atom "unmodelled")
       else if cfg.detailed then
-        match stD w cfg ty o with
+        match stD w cfg.core ty o with
         | .ok v => some (replyObj v)
         | .error e => some (.list [.atom "err", sexpOfErr e])
       else
-        match stF w cfg ty o with
+        match stF w cfg.core ty o with
         | some v => some (replyObj v)
         | Option.none => some (.list [.atom "err"])
   | "CONF", [ty, o] => do
